@@ -431,3 +431,30 @@ def steady_system_is_square_and_made_of_the_model_equations(K, with_plan):
             name = q2n[q]
             occurs = re.search(r"(?<![A-Za-z_0-9])" + re.escape(name) + r"(?![A-Za-z_0-9])", h) is not None
             K.ensure(f"incidence of {name} in '{h}' (at any lag or lead)", K.bool_cell(im, i, j) == occurs)
+
+
+@contract("C16", targets=["irispie.sequentials._invariants:Invariant.reorder_equations", "irispie.sequentials.main:Sequential.reorder_equations",
+                          "irispie.sequentials.main:Sequential.incidence_matrix", "irispie.sequentials.main:Sequential.is_sequential",
+                          "irispie.sequentials._invariants:Invariant.finalize_explanatories", "irispie.sequentials._invariants:Invariant.collect_names",
+                          "irispie.explanatories.main:Explanatory.finalize", "irispie.equations:Equation.finalize"],
+          instances=[()], opts={"max_paths": 400})
+def incidence_follows_the_new_order(K):
+    """After reorder_equations(p) the incidence matrix the block ordering works from is the old one with rows AND columns
+    permuted by p (equation p[i] in row i, its left-hand variable in column i), and is_sequential is judged on it - the
+    stored tokens are rebuilt against the new numbering, not left over from the old one."""
+    m = ir.Sequential.from_string(SEQ3)
+    uses = [[True, True, False], [False, True, True], [False, False, True]]      # a = b + z; b = 2*c; c = 0.5*c[-1] + z[-1]
+    ml = K.lift(m)
+    o = [K.int(f"o{i}", 0, 2) for i in range(3)]
+    K.assume(K.And(o[0] != o[1], o[0] != o[2], o[1] != o[2]))
+    K.method(ml, "reorder_equations", list(o))
+    im = K.getattr(ml, "incidence_matrix")
+    K.ensure("shape", K.shape(im) == (3, 3))
+    lower = []
+    for i in range(3):
+        for p in range(3):
+            want = K.Or(*[K.And(o[i] == j, o[p] == l) for j in range(3) for l in range(3) if uses[j][l]])
+            K.ensure(f"cell ({i},{p}) is the old cell (p[{i}], p[{p}])", K.bool_cell(im, i, p) == want)
+            if p > i:
+                lower.append(K.Not(want))
+    K.ensure("is_sequential is judged on the reordered matrix", K.truth(K.getattr(ml, "is_sequential")) == K.And(*lower))
